@@ -178,14 +178,15 @@ class AffImpMF(AffImp):
                     d_inputs[i] += B.T.dot(d_residuals[o])
 
 
-TIGHT = dict(atol=1e-14, rtol=1e-14)
+TIGHT = dict(atol=1e-11, rtol=1e-14)
+BLOCK = ('runonce', 'lbgs', 'lbjac')
 
 
 def _linear_solver(kind, assemble):
     if kind == 'direct':
         return om.DirectSolver(assemble_jac=assemble)
     if kind == 'krylov':
-        s = om.ScipyKrylov(assemble_jac=assemble, maxiter=500, atol=1e-14, rtol=1e-14, restart=60)
+        s = om.ScipyKrylov(assemble_jac=assemble, maxiter=500, atol=1e-13, rtol=1e-14, restart=60)
         return s
     if kind == 'lbgs':
         return om.LinearBlockGS(assemble_jac=assemble, maxiter=300, err_on_non_converge=True, **TIGHT)
@@ -200,7 +201,7 @@ def build(spec, cfg):
     """cfg: mode fwd|rev|auto; lin runonce|lbgs|lbjac|direct|direct_cyc|krylov|krylov_cyc;
     jac None|dense|csc|csr; nl nlbgs|newton"""
     comps = spec['comps']
-    jac = cfg.get('jac')
+    jac = cfg.get('jac') if cfg.get('lin', 'direct') not in BLOCK else None
     use_mf = jac is None and cfg.get('mf', True)
     cyc = set(sg.groups_with_cycles(spec))
     lin = cfg.get('lin', 'direct')
@@ -306,10 +307,15 @@ def build(spec, cfg):
             ls = _linear_solver(lin, assemble)
         elif lin in ('direct_cyc', 'krylov_cyc'):
             ls = _linear_solver(lin[:-4], assemble) if is_cyc else _linear_solver('runonce', False)
+        elif lin == 'direct_sub':
+            if glen == 1:
+                ls = _linear_solver('direct', assemble)
+            elif glen == 0:
+                ls = _linear_solver('lbgs' if is_cyc else 'runonce', False)
         elif lin in ('lbgs', 'lbjac'):
-            ls = _linear_solver(lin, assemble and glen == 0)
+            ls = _linear_solver(lin, False)
         elif lin == 'runonce':
-            ls = _linear_solver('lbgs' if is_cyc else 'runonce', assemble and glen == 0)
+            ls = _linear_solver('lbgs' if is_cyc else 'runonce', False)
         elif is_cyc:
             ls = _linear_solver('direct', False)
         if ls is not None:
